@@ -462,6 +462,93 @@ func collections(r *engine.Rec) {
 	r.Sample(map[string]any{"array": []int{2, 0, 3, 0}, "methods": "Array/List/Catalog Sort, SortWithRanker, Reverse, Shuffle vs Sorter on the Go array"})
 }
 
+// reuse: one sorter instance used for a history of calls; every call must be
+// correct and must leave the arrays of earlier calls alone.
+func reuse(r *engine.Rec) {
+	maxLen := 6
+	if r.Tier == "thorough" {
+		maxLen = 8
+	}
+	ranker := rankers["natural"]
+	sorter := age.Sorter[T]().MakeWithRanker(ranker)
+	var prev, prevCopy []T
+	count := 0
+	sortedOK := func(in []int, w []T) bool {
+		if !permutationOf(in, w) {
+			return false
+		}
+		for i := 0; i+1 < len(w); i++ {
+			if ranker(w[i], w[i+1]) == age.GreaterRank {
+				return false
+			}
+		}
+		return true
+	}
+	forAllArrays(maxLen, 3, func(a []int) bool {
+		count++
+		in := append([]int(nil), a...)
+		c := arrCase{Part: "sorter-reuse", Array: in}
+		if r.ReplayCase != nil && !r.Wanted(c) {
+			return true
+		}
+		work := tagged(in)
+		o := rt.Protect(budget(len(in))*3, func() {
+			sorter.SortValues(work)
+		})
+		r.Evals++
+		if o.Panicked || !sortedOK(in, work) {
+			r.Violation("a reused sorter sorts wrongly", fmt.Sprintf("in %v out %v %s", in, work, o.Value), c)
+		}
+		if len(prev) > 0 && !reflect.DeepEqual(prev, prevCopy) {
+			r.Violation("sorting one array changes an array sorted earlier with the same sorter", fmt.Sprintf("earlier result %v became %v after sorting %v", prevCopy, prev, in), c)
+		}
+		// sort, reverse, sort again: the same array through the same sorter
+		o2 := rt.Protect(budget(len(in))*3, func() {
+			sorter.ReverseValues(work)
+			sorter.SortValues(work)
+		})
+		r.Evals++
+		if o2.Panicked || !sortedOK(in, work) {
+			r.Violation("a reused sorter sorts wrongly (sort, reverse, sort again)", fmt.Sprintf("in %v out %v %s", in, work, o2.Value), c)
+		}
+		// descending lengths matter (a retained buffer larger than the next array): keep the longest recent result
+		if prev == nil || len(work) >= len(prev) || count%3 == 0 {
+			prev = work
+			prevCopy = append([]T(nil), work...)
+		}
+		return true
+	})
+	// a long array first, then every shorter one
+	long := make([]int, 40)
+	for i := range long {
+		long[i] = (i * 7) % 11
+	}
+	lw := tagged(long)
+	sorter.SortValues(lw)
+	lcopy := append([]T(nil), lw...)
+	for n := 0; n <= 40; n++ {
+		in := make([]int, n)
+		for i := range in {
+			in[i] = n - i
+		}
+		w := tagged(in)
+		sorter.SortValues(w)
+		r.Evals++
+		c := arrCase{Part: "sorter-reuse-after-long", Array: []int{n}}
+		if !sortedOK(in, w) {
+			r.Violation("a reused sorter sorts wrongly", fmt.Sprintf("length %d after a longer array", n), c)
+		}
+		if !reflect.DeepEqual(lw, lcopy) {
+			r.Violation("sorting one array changes an array sorted earlier with the same sorter", fmt.Sprintf("the 40-element result changed after sorting %d values", n), c)
+			lcopy = append([]T(nil), lw...)
+		}
+	}
+	r.States += int64(count)
+	r.Transitions += r.Evals
+	r.Distinct += int64(count)
+	r.Sample(map[string]any{"history": "one sorter: sort [2 1 0 1 2], reverse, sort again, then sort [1 0] and re-inspect the first array"})
+}
+
 func init() {
 	engine.Register(&engine.Check{
 		ID:        "C09",
@@ -480,7 +567,7 @@ func init() {
 				us = append(us, engine.Unit{Name: "arrays-" + n, Run: exhaustiveArrays(n)})
 			}
 			us = append(us, engine.Unit{Name: "every-ranker", Run: everyRanker}, engine.Unit{Name: "ladder", Run: ladder},
-				engine.Unit{Name: "shuffle", Run: shuffle}, engine.Unit{Name: "collections", Run: collections})
+				engine.Unit{Name: "shuffle", Run: shuffle}, engine.Unit{Name: "collections", Run: collections}, engine.Unit{Name: "sorter-reuse", Run: reuse})
 			return us
 		},
 	})
